@@ -102,7 +102,44 @@ def parseOps (s : String) : Option Ops :=
 
 def idxList (kind : Nat) (n : Nat) : List PIdx := (List.range n).map (fun i => ⟨kind, i⟩)
 
+/-! `cf <srvTP> <strict> <cih> <rpTP>` — the Caddyfile adapter's reading of the options (see
+harness/internal/c10/cf.go).  Answer `srv=… strict=… cih=… rp=… up=…` | `err`. -/
+
+def tokenChar (c : UInt8) : Bool :=
+  (48 ≤ c && c ≤ 57) || (97 ≤ c && c ≤ 122) || (65 ≤ c && c ≤ 90) || c == 95 || c == 46 || c == 58 || c == 47 || c == 45
+
+def parseLines (s : String) : Option (List (List Bytes)) :=
+  if s == "." then some [] else
+  (s.splitOn "|").mapM fun l =>
+    if l == "_" then some [] else
+    (l.splitOn ",").mapM fun h =>
+      match Hex.decode h with
+      | some t => if !t.isEmpty && t.all tokenChar then some t else none
+      | none => none
+
+def showList (nilWord : String) : Option (List Bytes) → String
+  | none => nilWord
+  | some [] => "."
+  | some l => ",".intercalate (l.map Hex.encode)
+
+def handleCF : List String → String
+  | [srvTP, strict, cih, rpTP] =>
+    let st : Option (Nat × Bool) :=
+      if strict == "0" then some (0, false) else if strict == "1" then some (1, false)
+      else if strict == "2" then some (2, false) else if strict == "x" then some (1, true) else none
+    match parseLines srvTP, st, parseLines cih, parseLines rpTP with
+    | some s, some (n, arg), some c, some r =>
+      match adaptOptions s n arg c r with
+      | none => "err"
+      | some a =>
+        "srv=" ++ showList "nil" a.srvRanges ++ " strict=" ++ (if a.strict then "1" else "0") ++
+        " cih=" ++ showList "nil" a.clientIPHeaders ++ " rp=" ++ showList "nil" (some a.rpRanges) ++
+        " up=" ++ Hex.encode a.clientIPShorthand
+    | _, _, _, _ => "bad-op"
+  | _ => "bad-op"
+
 def handle : List String → String
+  | "cf" :: rest => handleCF rest
   | ["req", srvT, cih, strict, hT, omitF, remote, tls, host, hdrs, tbl, failsF, hopsF] =>
     let srv : Option (Option Nat) := if srvT == "nil" then some none else (parseRanges srvT).map some
     let ci : Option (Option (List Bytes)) := if cih == "nil" then some none else (parseHexList cih).map some
